@@ -256,8 +256,9 @@ func (c *Client) connect() error {
 			for {
 				val, err := stanza.NextPacket(c.transport.GetDecoder())
 				if err != nil {
+					// The session was never established: there is no connection loss to signal here
+					// (the failed attempt is reported by the error connect returns).
 					c.ErrorHandler(err)
-					c.disconnected(state)
 					return
 				}
 				switch val.(type) {
